@@ -10,7 +10,7 @@ EXPLANATION = (
     "socket/TCP layers) the hand-off of a write — the call to the next Session::send or the channel send that carries "
     "Instruction::Outgoing to the TCB task — never sits inside a closure/async block handed to tokio::spawn, and the TCB "
     "task consumes instructions from a FIFO channel: enqueue order = program order for every runtime flavour; "
-    "(S-BOUND) in Socket::recv every amount appended to the result inside the accumulation loop is bounded by a value "
+    "(S-NOLOSS) a hand-off that can refuse a write (try_send on a bounded queue) makes send() fail instead of reporting success; (S-BOUND) in Socket::recv every amount appended to the result inside the accumulation loop is bounded by a value "
     "that depends on the buffer's current length, so recv(n) cannot return more than n; (S-REMAINDER) whenever a message "
     "is truncated the remainder is sliced at the same bound and stored; (S-FIFO) the queue that parks messages arriving before accept() is filled at one end and replayed from the other; (S-PEER) SocketAPI::demux looks the session up "
     "under the datagram's (local, remote) endpoints and consults listen bindings only on the miss. Not decided: "
@@ -76,6 +76,23 @@ def run(ctx):
             ctx.bad("S-ORDER", key, b.span, "%s hands the write on from a nested closure (%s)" % (name, detached[0][0].pretty))
         else:
             ctx.ok("S-ORDER", key, b.span, "write handed on synchronously (%s)" % ", ".join(sorted({K.short(h[2]).rsplit("::", 2)[-2] + "::" + h[2].rsplit("::", 1)[-1] for h in direct})))
+        # S-NOLOSS: a hand-off that can refuse the write (try_send on a bounded queue) must make send() fail
+        for bb, t, hk in direct:
+            nm = hk.rsplit("::", 1)[-1]
+            if not hk.startswith("tokio::sync::mpsc::") or nm not in ("try_send", "send_timeout"):
+                continue
+            lkey = "S-NOLOSS:%s::%s" % (st, b.name)
+            g = cfg(b)
+            d = F.call_dest(t)
+            sw = [s_ for s_ in range(len(b.blocks)) if b.term(s_)[0] == "switch" and (dep.switch_condition(b, s_) or {}).get("kind") == "discr" and dep.switch_condition(b, s_)["place"][0] == d[0]]
+            errs = [x for x, stt in K.aggregates(b, "core::result::Result", "Err") if stt[1] == [0, []] or True]
+            okk = False
+            if len(sw) == 1:
+                err_arm = K.skip_false_edges(b, dep.switch_target(b, sw[0], 1))
+                okk = bool(errs) and g.all_paths_through(err_arm, g.returns, errs)
+            (ctx.ok if okk else ctx.bad)("S-NOLOSS", lkey, F.call_loc(t),
+                "a refused hand-off makes send() return an error" if okk else
+                "%s hands the write to a bounded queue with %s and reports success even when the queue refuses it: the bytes of that write are lost for good (nothing retransmits what never reached the TCB) while later writes are delivered" % (name, nm))
     # the TCB task: Outgoing instructions reach Tcb::send in channel order
     hi = prog.one("protocols::tcp::tcp_session::handle_instruction")
     ts = K.calls_to(hi, "tcb::{impl#0}::send")
